@@ -263,6 +263,42 @@ func derSig(r, s *big.Int) []byte {
 	return append([]byte{0x30, byte(len(body))}, body...)
 }
 
+// OffCurveScript is <04 | x=0 | y=1> OP_CHECKSIG: a "public key" that is no point of secp256k1 (0^3+7 is not 1).  No
+// signature verifies against it; an implementation that does not check the key computes with a point of order 3
+// of another curve and accepts one forged signature in three.
+func OffCurveScript() []byte {
+	k := make([]byte, 65)
+	k[0], k[64] = 4, 1
+	return append(append([]byte{0x41}, k...), 0xac)
+}
+
+// ForgeOffCurveSig returns (r, s) with r = x(kG), s = z/k (low S) and r/s a multiple of 3, DER-encoded with hash type ht.
+func ForgeOffCurveSig(z [32]byte, ht byte) []byte {
+	zn := new(big.Int).SetBytes(z[:])
+	half := new(big.Int).Rsh(curveN, 1)
+	for k := int64(2); ; k++ {
+		kb := make([]byte, 32)
+		new(big.Int).SetInt64(k).FillBytes(kb)
+		pub := btc.PublicFromPrivate(kb, true)
+		r := new(big.Int).SetBytes(pub[1:33])
+		r.Mod(r, curveN)
+		s := new(big.Int).Mul(zn, new(big.Int).ModInverse(big.NewInt(k), curveN))
+		s.Mod(s, curveN)
+		if r.Sign() == 0 || s.Sign() == 0 {
+			continue
+		}
+		if s.Cmp(half) > 0 {
+			s.Sub(curveN, s)
+		}
+		u2 := new(big.Int).Mul(r, new(big.Int).ModInverse(s, curveN))
+		u2.Mod(u2, curveN)
+		if new(big.Int).Mod(u2, big.NewInt(3)).Sign() != 0 {
+			continue
+		}
+		return append(derSig(r, s), ht)
+	}
+}
+
 // ---------------------------------------------------------------- digests (from the BIPs)
 
 // LegacyDigest is the original signature hash for input i with the given script code.
